@@ -467,8 +467,8 @@ class Apply(Generic[A, B], Evaluatable[B]):
 
     def evaluate(self, options: Options) -> B:
         """Apply the function to the result of evaluating the object."""
-        value = self.evaluatable(options)
-        return self.func(options)(value)
+        value = self.evaluatable.evaluate(options)
+        return self.func.evaluate(options)(value)
 
     def validate(self, options: Options) -> None:
         """Validate the source object and the function to apply to it."""
@@ -506,12 +506,12 @@ class Bind(Generic[A, B], Evaluatable[B]):
 
     def evaluate(self, options: Options) -> B:
         """Bind the function to the result of evaluating the object."""
-        return self.func(self.evaluatable(options)).evaluate(options)
+        return self.func(self.evaluatable.evaluate(options)).evaluate(options)
 
     def validate(self, options: Options) -> None:
         """Validate the source object and the function"""
         self.evaluatable.validate(options)
-        self.func(self.evaluatable(options)).validate(options)
+        self.func(self.evaluatable.evaluate(options)).validate(options)
 
     def keys(self, options: Options) -> Set[str]:
         """Return the keys the source object, function, and result depend on.
@@ -521,7 +521,7 @@ class Bind(Generic[A, B], Evaluatable[B]):
         result depends on.
         """
         return self.evaluatable.keys(options) | self.func(
-            self.evaluatable(options)
+            self.evaluatable.evaluate(options)
         ).keys(options)
 
     def explain(self, options: Optional[Options] = None) -> Set[str]:
@@ -533,7 +533,7 @@ class Bind(Generic[A, B], Evaluatable[B]):
         """
         try:
             return self.evaluatable.explain(options) | self.func(
-                self.evaluatable(options)
+                self.evaluatable.evaluate(options or {})
             ).explain(options)
         except EvaluationError as e:
             raise InsufficientInformationError(f"Cannot explain {self}", self) from e
